@@ -125,9 +125,10 @@ func (c *BlockCache) Add(block *types.Block) {
 			if c.cache[i].Height == height { // already exist
 				c.cache[i].Blocks[block.Hash()] = block
 				break
-			} else if c.cache[i].Height > height { // not exist
-				tmp := append(c.cache[:i+1], bsh)
-				c.cache = append(tmp, c.cache[i+1:]...)
+			} else if c.cache[i].Height > height { // not exist: it belongs in front of the first larger height
+				c.cache = append(c.cache, nil)
+				copy(c.cache[i+1:], c.cache[i:])
+				c.cache[i] = bsh
 				break
 			}
 		}
